@@ -9,6 +9,7 @@ import (
 	"bytes"
 	"fmt"
 	"runtime/debug"
+	"strings"
 	"sync"
 	"time"
 
@@ -165,12 +166,28 @@ type v1World struct {
 	master  []byte
 	clients [][]byte
 	ref     map[string][][]byte // getter|client -> expected values
+	// Redis layer (redisv1.go): how a handle is opened (default: ksrig.V1 on dir), signature prefix, counter/class tag
+	open   func(cacheSize int) (*filesystem.KeyStore, error)
+	prefix string
+	tag    string
+}
+
+func (w *v1World) openHandle(cacheSize int) (*filesystem.KeyStore, error) {
+	if w.open != nil {
+		return w.open(cacheSize)
+	}
+	return ksrig.V1(w.dir, w.master, cacheSize)
 }
 
 // newV1World generates the keys (through a cache-less handle) and reads the reference values twice.
 func newV1World(r *ev.Run, nClients int) *v1World {
 	w := &v1World{dir: ksrig.ScratchDir("c17-v1"), master: ksrig.RandBytes(32), ref: map[string][][]byte{}}
-	ks, err := ksrig.V1(w.dir, w.master, keystore.WithoutCache)
+	w.populate(r, nClients)
+	return w
+}
+
+func (w *v1World) populate(r *ev.Run, nClients int) {
+	ks, err := w.openHandle(keystore.WithoutCache)
 	if err != nil {
 		panic(err)
 	}
@@ -198,7 +215,7 @@ func newV1World(r *ev.Run, nClients int) *v1World {
 	time.Sleep(3 * time.Millisecond)
 	must(ks.GeneratePoisonSymmetricKey())
 	read := func() map[string][][]byte {
-		h, err := ksrig.V1(w.dir, w.master, keystore.WithoutCache)
+		h, err := w.openHandle(keystore.WithoutCache)
 		must(err)
 		out := map[string][][]byte{}
 		for _, g := range v1Getters() {
@@ -222,9 +239,8 @@ func newV1World(r *ev.Run, nClients int) *v1World {
 		if classifyWrong(again[k], v, nil) != "equal" {
 			panic("c17 v1 set-up: sequential cache-less reads disagree for " + k)
 		}
-		r.Count("v1_reference_values", 1)
+		r.Count(w.tag+"v1_reference_values", 1)
 	}
-	return w
 }
 
 type v1Held struct {
@@ -237,7 +253,7 @@ type v1Held struct {
 // stress runs goroutines × iters getter calls against ONE handle with the given cache size.
 func (w *v1World) stress(r *ev.Run, cacheSize, goroutines, iters int) {
 	cc := cacheClass(cacheSize)
-	ks, err := ksrig.V1(w.dir, w.master, cacheSize)
+	ks, err := w.openHandle(cacheSize)
 	if err != nil {
 		panic(err)
 	}
@@ -248,15 +264,15 @@ func (w *v1World) stress(r *ev.Run, cacheSize, goroutines, iters int) {
 		wg.Add(1)
 		go func(gi int) {
 			defer wg.Done()
-			rng := gen.New(r.Seed, fmt.Sprintf("c17-v1-%s-%d", cc, gi))
+			rng := gen.New(r.Seed, fmt.Sprintf("c17-v1-%s%s-%d", w.tag, cc, gi))
 			var held []v1Held
 			recheck := func(h v1Held) {
 				// a key the keystore handed to a caller must stay what it was while the caller uses it
 				if cls := classifyWrong(h.vals, h.want, nil); cls != "equal" {
-					r.Violation(fmt.Sprintf("v1 %s: key handed to the caller changed afterwards (%s): cache=%s", h.g, cls, cc),
+					r.Violation(w.prefix+fmt.Sprintf("v1 %s: key handed to the caller changed afterwards (%s): cache=%s", h.g, cls, cc),
 						map[string]interface{}{"getter": h.g, "key": h.key, "goroutines": goroutines, "seed": r.Seed})
 				} else {
-					r.Count("v1_held_keys_still_intact", 1)
+					r.Count(w.tag+"v1_held_keys_still_intact", 1)
 				}
 			}
 			<-start
@@ -274,7 +290,7 @@ func (w *v1World) stress(r *ev.Run, cacheSize, goroutines, iters int) {
 					defer func() {
 						if v := recover(); v != nil {
 							st := string(debug.Stack())
-							r.Violation(fmt.Sprintf("v1 %s panicked under concurrent use: %s at %s: cache=%s", g.Name, errClass(fmt.Sprint(v)), panicSite(st), cc),
+							r.Violation(w.prefix+fmt.Sprintf("v1 %s panicked under concurrent use: %s at %s: cache=%s", g.Name, errClass(fmt.Sprint(v)), panicSite(st), cc),
 								map[string]interface{}{"panic": fmt.Sprint(v), "stack": st, "client": string(id)})
 							err = fmt.Errorf("panic")
 						}
@@ -282,11 +298,14 @@ func (w *v1World) stress(r *ev.Run, cacheSize, goroutines, iters int) {
 					got, err = g.Call(ks, id)
 				}()
 				r.Case()
-				r.Count("v1_getter_calls", 1)
-				r.SetAdd("v1_getter_x_cache", g.Name+"/"+cc)
+				r.Count(w.tag+"v1_getter_calls", 1)
+				r.SetAdd(w.tag+"v1_getter_x_cache", g.Name+"/"+cc)
 				if err != nil {
-					if err.Error() != "panic" {
-						r.Violation(fmt.Sprintf("v1 %s failed under concurrent use: %s: cache=%s", g.Name, errClass(err.Error()), cc),
+					if w.tag != "" && strings.Contains(err.Error(), "i/o timeout") {
+					// go-redis' read/write timeout (3 s of WALL clock) on a saturated machine: says nothing about the keystore
+					r.Inconclusive("redis v1: a Redis command timed out on the client side (wall-clock timeout of go-redis; machine overloaded)")
+				} else if err.Error() != "panic" {
+						r.Violation(w.prefix+fmt.Sprintf("v1 %s failed under concurrent use: %s: cache=%s", g.Name, errClass(err.Error()), cc),
 							map[string]interface{}{"getter": g.Name, "client": string(id), "error": err.Error(), "goroutines": goroutines, "seed": r.Seed})
 					}
 					continue
@@ -297,18 +316,18 @@ func (w *v1World) stress(r *ev.Run, cacheSize, goroutines, iters int) {
 					for _, b := range snap {
 						hx = append(hx, ev.Hex(b))
 					}
-					r.Violation(fmt.Sprintf("v1 %s returned a wrong key (%s): cache=%s", g.Name, cls, cc),
+					r.Violation(w.prefix+fmt.Sprintf("v1 %s returned a wrong key (%s): cache=%s", g.Name, cls, cc),
 						map[string]interface{}{"getter": g.Name, "client": string(id), "returned": hx, "goroutines": goroutines, "seed": r.Seed})
 					continue
 				}
-				r.Count("v1_getter_results_correct", 1)
-				r.Distinct("v1:" + g.Name + "/cache=" + cc)
+				r.Count(w.tag+"v1_getter_results_correct", 1)
+				r.Distinct(w.tag + "v1:" + g.Name + "/cache=" + cc)
 				if gi == 0 && it < 2 {
 					var ds []string
 					for _, b := range snap {
 						ds = append(ds, dg(b))
 					}
-					r.SampleN("v1-"+cc, 1, map[string]interface{}{"kind": "v1 getter result equal to the reference", "getter": g.Name, "client": string(id),
+					r.SampleN(w.tag+"v1-"+cc, 1, map[string]interface{}{"kind": "v1 getter result equal to the reference", "getter": g.Name, "client": string(id),
 						"cache": cc, "goroutines": goroutines, "key_digests": ds})
 				}
 				held = append(held, v1Held{key: key, vals: got, want: want, g: g.Name})
@@ -328,6 +347,6 @@ func (w *v1World) stress(r *ev.Run, cacheSize, goroutines, iters int) {
 	select {
 	case <-done:
 	case <-time.After(90 * time.Second):
-		r.Inconclusive("v1 reader stress did not finish (watchdog), cache=" + cc)
+		r.Inconclusive(w.tag + "v1 reader stress did not finish (watchdog), cache=" + cc)
 	}
 }
